@@ -37,4 +37,11 @@ def main(argv):
 
 
 if __name__ == '__main__':
-    sys.exit(main(sys.argv[1:]))
+    try:
+        rc = main(sys.argv[1:])
+    except SystemExit:
+        raise
+    except BaseException:            # a crash of the harness itself is never a verdict
+        traceback.print_exc()
+        rc = 2
+    sys.exit(rc)
